@@ -18,7 +18,7 @@ while IFS=$'\t' read -r f desc; do
   cp $WT/$rel $M/orig.go.bak
   cp $M/$f $WT/$rel
   if ! (cd $WT && go build ./$(dirname $rel) >/dev/null 2>&1); then echo "NOBUILD $desc" >> $res; cp $M/orig.go.bak $WT/$rel; continue; fi
-  r=$(GVC_OUT=$OUT timeout 300 /verif/bin/gvc check -prop $prop -only "$only" -repo $WT 2>&1)
+  r=$(GVC_OUT=$OUT timeout 300 ${GVC_BIN:-/verif/bin/gvc} check -prop $prop -only "$only" -repo $WT 2>&1)
   if echo "$r" | grep -q "^VIOLATION\|CHECK-ERROR"; then echo "CAUGHT $desc :: $(echo "$r" | grep -o "obligation=[^ ]*\|CHECK-ERROR.*" | head -1 | cut -c1-120)" >> $res; else echo "SURVIVED $desc" >> $res; fi
   cp $M/orig.go.bak $WT/$rel
 done < $M/INDEX.txt
